@@ -201,4 +201,12 @@ class C04c(Obligation):
             ctx.check(le, 'completions are in the documented order')
 
 
-OBLIGATIONS = [C04a, C04b, C04c]
+from obligations.c15 import C15f  # noqa: E402
+
+
+class C04d(C15f):
+    id = 'C04.d'
+    title = 'attribute sources: the class MRO used for "obj." completion lists the class and every ancestor exactly once'
+
+
+OBLIGATIONS = [C04a, C04b, C04c, C04d]
